@@ -284,8 +284,9 @@ def build(tier, seed):
     # sit on the population mean, their eta still scored as standard normal)
     for base in (rp.Comp([rp.G(1, False), rp.P(1), rp.LN(1)]),
                  rp.Comp([rp.H(1), rp.G(2, False)]),
-                 rp.Comp([rp.G(1), rp.LN(1, False), rp.P(1)]),
-                 rp.Comp([rp.Cov(rp.G(1, False)), rp.G(2)])):
+                 rp.Comp([rp.G(1), rp.LN(1, False), rp.P(1)])):
+        # (not under a covariate model: there the individuals' scale is the fixed
+        # 0 plus a covariate term of either sign)
         for n_ids in (1, 2):
             names_b = popbuild.build(base, n_ids).get_parameter_names()
             for i_, nm in enumerate(names_b):
